@@ -274,6 +274,11 @@ def special_docs(rng):
     for line in ("COMP. ANY OIL COMPANY INC. : WESTERN DIVISION : COMPANY", "DATE. 13-DEC-86 : 14:30 : LOG DATE", "LOC. A : B : C : D",
                  "SRVC. \"quoted : text\" : x : service", "FLD . a:b : c : field"):
         out.append((head + "STRT.M 1.0 : s\nSTOP.M 2.0 : s\nSTEP.M 1.0 : s\nNULL. -999.25 : n\n" + line + "\n" + tail + "1.0 5\n2.0 6\n", "multi-colon"))
+    # a unit that is a decimal number or a fraction, typed directly after the dot, with no value: the widest unit + value of its section
+    for sect, line in (("~P\n", "BS.8.5 : bit size"), ("~P\n", "RMF.0.25 : mud filtrate"), ("~P\n", "TOL.1/32 : tolerance"), ("", "BS.8.5 : bit size"),
+                       ("~P\n", "CS.9.625 : casing\nX.M 1 : x")):
+        well = "STRT.M 1.0 : s\nSTOP.M 2.0 : s\nSTEP.M 1.0 : s\nNULL. -999.25 : n\n"
+        out.append((head + well + (line + "\n" if not sect else "") + (sect + line + "\n" if sect else "") + tail + "1.0 5\n2.0 6\n", "decimal-unit"))
     for n in (70, 79, 80, 95, 140):
         words = " ".join("w%d" % i for i in range(n // 4))[:n]
         out.append((head + "STRT.M 1.0 : s\nSTOP.M 2.0 : s\nSTEP.M 1.0 : s\nNULL. -999.25 : n\nLOC.M1250 " + words + " : location\n~P\nREM.X " + words +
